@@ -545,6 +545,21 @@ def execute(prog, inject_at=None, releases=(), run_cls=Run, after=None):
             vt = holder.get("victim")
             holder["injected"] = vt is not None and not vt.done()
             holder["inject_time"] = loop.time()
+            # where is the victim suspended right now? (await chain of the task; used to tell apart the documented
+            # stdlib TaskGroup behaviour from anything haiway does)
+            try:
+                codes = []
+                c = vt.get_coro() if vt is not None and not vt.done() else None
+                while c is not None and len(codes) < 200:  # Task.get_stack() only gives the outermost frame
+                    fr = getattr(c, "cr_frame", None) or getattr(c, "gi_frame", None) or getattr(c, "ag_frame", None)
+                    if fr is not None:
+                        codes.append(fr.f_code)
+                    c = getattr(c, "cr_await", None) or getattr(c, "gi_yieldfrom", None) or getattr(c, "ag_await", None)
+                holder["in_group_exit"] = any(
+                    co.co_name == "__aexit__" and co.co_filename.replace("\\", "/").endswith("asyncio/taskgroups.py") for co in codes
+                )
+            except Exception:  # noqa: BLE001
+                holder["in_group_exit"] = None
             if vt is not None and not vt.done():
                 vt.cancel()
 
@@ -558,6 +573,7 @@ def execute(prog, inject_at=None, releases=(), run_cls=Run, after=None):
         "errors": res.errors,
         "injected": holder.get("injected", False),
         "inject_time": holder.get("inject_time"),
+        "in_group_exit": holder.get("in_group_exit"),
         "cancelling": holder.get("victim_cancelling"),
         "leftover": res.leftover,
     }
